@@ -13,10 +13,23 @@ use std::sync::atomic::{AtomicUsize, Ordering};
 
 pub struct Counting;
 pub static MAX_ALLOC: AtomicUsize = AtomicUsize::new(0);
+/// C15: when non-zero, every block the ordinary heap gets back is searched for a run of at least 16 bytes of this value
+/// (blocks given back holding a marked secret are counted in SCAN_BLOCKS, their marked bytes in SCAN_BYTES)
+pub static SCAN_FOR: AtomicUsize = AtomicUsize::new(0);
+pub static SCAN_BLOCKS: AtomicUsize = AtomicUsize::new(0);
+pub static SCAN_BYTES: AtomicUsize = AtomicUsize::new(0);
+unsafe fn scan_released(p: *mut u8, size: usize) {
+    let pat = SCAN_FOR.load(Ordering::Relaxed);
+    if pat == 0 || size < 16 { return; }
+    let sl = std::slice::from_raw_parts(p, size.min(1 << 22));
+    let (mut run, mut best, mut total) = (0usize, 0usize, 0usize);
+    for x in sl { if *x as usize == pat { run += 1; total += 1; if run > best { best = run; } } else { run = 0; } }
+    if best >= 16 { SCAN_BLOCKS.fetch_add(1, Ordering::Relaxed); SCAN_BYTES.fetch_add(total, Ordering::Relaxed); }
+}
 unsafe impl GlobalAlloc for Counting {
     unsafe fn alloc(&self, l: Layout) -> *mut u8 { MAX_ALLOC.fetch_max(l.size(), Ordering::Relaxed); System.alloc(l) }
-    unsafe fn dealloc(&self, p: *mut u8, l: Layout) { System.dealloc(p, l) }
-    unsafe fn realloc(&self, p: *mut u8, l: Layout, n: usize) -> *mut u8 { MAX_ALLOC.fetch_max(n, Ordering::Relaxed); System.realloc(p, l, n) }
+    unsafe fn dealloc(&self, p: *mut u8, l: Layout) { scan_released(p, l.size()); System.dealloc(p, l) }
+    unsafe fn realloc(&self, p: *mut u8, l: Layout, n: usize) -> *mut u8 { MAX_ALLOC.fetch_max(n, Ordering::Relaxed); if n < l.size() { scan_released(p.add(n), l.size() - n); } System.realloc(p, l, n) }
     unsafe fn alloc_zeroed(&self, l: Layout) -> *mut u8 { MAX_ALLOC.fetch_max(l.size(), Ordering::Relaxed); System.alloc_zeroed(l) }
 }
 
@@ -232,6 +245,23 @@ fn pwhash_record_lengths(out: &mut Out, rng: &mut Rng) {
           let r = guard(|| rec.verify(&pw));
           out.case("pwhash.verify", &[b(&hv), b(&sv), Tok::I(hl as i64), Tok::B(1u64.to_le_bytes().to_vec()), Tok::B(8192u64.to_le_bytes().to_vec()), Tok::I(2), b(&pw)], &r.map(|_| vec![]), true);
       } }
+    // the other fields of the record's configuration, with values no record the crate wrote holds: decoding answers, and so does
+    // verifying whatever was decoded
+    for field in ["algorithm", "salt_length", "hash_length", "opslimit", "memlimit"] {
+        for val in [json!(0), json!(1), json!(2), json!(3), json!(7), json!(255), json!(256), json!(65536), json!(4294967295u64), json!(4294967296u64), json!(-1), json!(1.5), json!(null), json!(true), json!(""), json!("Argon2d"), json!("argon2id13"), json!("Argon2i13"), json!([1]), json!({"Argon2id13": 1})] {
+            if (field == "opslimit" || field == "memlimit") && val.as_u64().map(|x| x > 65536).unwrap_or(false) { continue; }   // bounded cost parameters
+            let mut v = base.clone();
+            v["config"][field] = val.clone();
+            let text = v.to_string();
+            out.search_evaluations += 1;
+            let rp = json!({"op":"serde.PwHash.decode+verify","json":text,"field":field,"password":hx(&pw)});
+            match guard_total(|| serde_json::from_str::<VecPwHash>(&text)) {
+                Outcome::Panic => out.hit("serde.json.decode-panics.PwHash.config", format!("config.{} = {}", field, val), rp.clone()),
+                Outcome::Ok(Ok(rec)) => { let (r, a) = measured(|| guard(|| rec.verify(&pw))); if r.is_panic() { out.hit("obj.pwhash.verify.panics.record-config", format!("config.{} = {}", field, val), rp.clone()); } if a > (1 << 27) { out.hit("obj.pwhash.verify.absurd-allocation", format!("{} bytes requested with config.{} = {}", a, field, val), rp.clone()); } }
+                _ => {}
+            }
+        }
+    }
     for hl in [0u64, 1, 15, declared.saturating_sub(1), declared + 1, 4096, 1 << 24, 1 << 63, u64::MAX - 1, u64::MAX] {
         if hl == declared { continue; }
         let mut v = base.clone();
